@@ -10,6 +10,8 @@ package main
 //	3 ragged-reads         only Read, at most raggedSizes[k mod len] bytes on the k-th call
 //	4 eof-with-last-bytes  only Read, the stream ends with the frame and the call that delivers
 //	                       its last byte returns (n > 0, io.EOF)
+//	5 idle-reads           only Read, every other call answers (0, nil) without consuming anything ("nothing
+//	                       happened", which io.Reader permits) before the next one delivers all that is asked
 
 import (
 	"bytes"
@@ -18,9 +20,9 @@ import (
 	"verif/engine"
 )
 
-const nSrc = 5
+const nSrc = 6
 
-var srcNames = [nSrc]string{"bytereader", "plain", "one-byte-reads", "ragged-reads", "eof-with-last-bytes"}
+var srcNames = [nSrc]string{"bytereader", "plain", "one-byte-reads", "ragged-reads", "eof-with-last-bytes", "idle-reads"}
 
 var raggedSizes = []int{1, 2, 3, 5, 8, 13, 64, 1, 1000, 4096, 7}
 
@@ -88,6 +90,30 @@ func (e *eofSrc) Read(b []byte) (int, error) {
 
 func (e *eofSrc) Consumed() int { return e.pos }
 
+type idleSrc struct {
+	data []byte
+	pos  int
+	tick int
+}
+
+func (s *idleSrc) Read(b []byte) (int, error) {
+	if len(b) == 0 {
+		return 0, nil
+	}
+	if s.pos >= len(s.data) {
+		return 0, io.EOF
+	}
+	s.tick++
+	if s.tick%2 == 1 {
+		return 0, nil
+	}
+	n := copy(b, s.data[s.pos:])
+	s.pos += n
+	return n, nil
+}
+
+func (s *idleSrc) Consumed() int { return s.pos }
+
 // newSource builds source kind `kind` over wire followed by the sentinel tail (kind 4: over wire
 // only, so that the last frame's last byte arrives together with io.EOF). stream must be
 // wire+tail with len(wire) == wireLen.
@@ -103,6 +129,8 @@ func newSource(kind int, stream []byte, wireLen int) source {
 		return &chunkSrc{data: stream, sizes: raggedSizes}
 	case 4:
 		return &eofSrc{data: stream[:wireLen]}
+	case 5:
+		return &idleSrc{data: stream}
 	}
 	engine.HarnessError("unknown source kind %d", kind)
 	return nil
